@@ -9527,6 +9527,9 @@ def _write_node(node, xml_tree=None, viewport_transform=None):
                 vt = m
         except ValueError:
             pass
+        if viewport_transform:
+            # Nested svg: the content's transforms also include the enclosing viewport transforms.
+            vt = viewport_transform * vt if vt else viewport_transform
         for child in node:
             _write_node(child, xml_tree, vt)
     elif isinstance(node, Ellipse):
